@@ -163,8 +163,11 @@ def finish(rep: Report, level_text: str) -> int:
     evdir = VERIF / "evidence"
     evdir.mkdir(exist_ok=True)
     replay_paths = []
+    rdir = evdir / "replay"
+    if rdir.is_dir():
+        for old in rdir.glob(f"{rep.prop}-*.json"):
+            old.unlink()
     if new:
-        rdir = evdir / "replay"
         rdir.mkdir(exist_ok=True)
         for i, f in enumerate(new):
             rp = rdir / f"{rep.prop}-{i}.json"
